@@ -1,4 +1,7 @@
-"""C21  Decompiled integer code computes what the bytecode computes (DESIGN §7 C21) -- partial."""
+"""C21  Decompiled integer code computes what the bytecode computes (DESIGN §7 C21)."""
+import json
+import os
+
 import z3
 
 from pyvc.core import And, Eq, Implies, Ite, Not, Or, SymBool, SymInt
@@ -15,19 +18,27 @@ META = {
     "technique": 'contract-based deductive verification: symbolic execution of the real functions against sidecar contracts (z3/cvc5) for the proved units; bounded contract evaluation (enumerated scope / independent writer) for the rest',
     "level": "other",
     "partial": True,
-    "level_text": "Partial: only the opcode -> expression translation is under contract. For every int/long arithmetic, bitwise, "
-                  "shift (3-register, /2addr, /lit16, /lit8), negation, complement and int/long/byte/char/short conversion opcode the "
-                  "real handler from INSTRUCTION_SET is run on a stub instruction, the expression it returns is printed by the real "
-                  "Writer visitors, the printed Java text is parsed with Java's typing/semantics (promotion, shift masking, truncating "
-                  "division) into a bit-vector term and proved equal, for all 2^32 / 2^64 operand values (z3 bit-vector proof), to the "
-                  "Dalvik semantics of that opcode; destination and operand registers are checked too. NOT covered: register "
-                  "propagation, dead code elimination, structuring (loops/ifs/switches), statement printing, javac acceptance.",
+    "level_text": "Two layers. (1) proved, all operand values: for every int/long arithmetic, bitwise, shift (3-register, /2addr, "
+                  "/lit16, /lit8), negation, complement and int/long/byte/char/short conversion opcode the real handler from "
+                  "INSTRUCTION_SET is run on a stub instruction, the expression it returns is printed by the real Writer visitors, the "
+                  "printed Java text is parsed with Java's typing/semantics (promotion, shift masking, truncating division) into a "
+                  "bit-vector term and proved equal, for all 2^32 / 2^64 operand values (z3 bit-vector proof), to the Dalvik semantics "
+                  "of that opcode; destination and operand registers are checked too. (2) BOUNDED, not proved: the rest of the pipeline "
+                  "(register propagation, dead code elimination, variable splitting, structuring of ifs / loops / switches, statement "
+                  "printing, javac acceptance) is exercised end to end on an enumerated scope of generated structured methods (quick "
+                  "1600, thorough 16000 programs x 8 argument tuples): independent DEX writer -> real DecompilerDAD -> javac 17 -> java, "
+                  "compared with an independent Dalvik interpreter. No contract of this family expresses 'the emitted Java text "
+                  "computes the same function' for whole methods, so layer 2 is a bounded stand-in and never counted as proved. "
+                  "Open known findings KF-C21-1..4 (programs listed in known_c21_seeds.json).",
     "trusted": ["Java expression semantics as transcribed in specs/javaexpr.py (JLS §15)", "Dalvik opcode semantics table in the same file",
-                "stub instruction objects exposing the register fields of formats 23x/12x/22s/22b"],
-    "explanation": "opcode->expression semantics proved for all operand values; the rest of the decompiler pipeline is NOT covered by "
-                   "this family (no contract expresses 'the emitted Java text computes the same function' for whole methods).",
+                "stub instruction objects exposing the register fields of formats 23x/12x/22s/22b",
+                "bounded layer: javac / java 17 of the image, specs/dalvikgen.py (generator + reference interpreter), specs/dexwriter.py"],
+    "explanation": "opcode->expression semantics proved for all operand values; the rest of the decompiler pipeline is checked only on a "
+                   "bounded, enumerated scope of generated methods (labelled bounded).",
     "assumptions": ["literal operands of /lit16 and /lit8 forms are taken from boundary sets (the literal is printed in decimal; "
-                    "registers are fully symbolic)", "division/remainder: both sides throw for a zero divisor (precondition b != 0)"],
+                    "registers are fully symbolic)", "division/remainder: both sides throw for a zero divisor (precondition b != 0)",
+                    "bounded layer: 8 argument tuples (boundary values and random) per generated method; a decompiled method that has "
+                    "not returned after 15 s is reported as 'timeout' (the reference interpreter needs < 20000 steps)"],
 }
 
 TABLE = J.table()
@@ -144,18 +155,38 @@ BATCH = 50
 NCHUNK = 16
 
 
+KNOWN_FILE = os.path.join(os.path.dirname(os.path.dirname(os.path.abspath(__file__))), "known_c21_seeds.json")
+# javac complaint / wrong result -> the open known finding it belongs to (known_findings.json)
+KF_OF = {"symbol": "KF-C21-1", "lossy": "KF-C21-2", "unreach": "KF-C21-3", "value": "KF-C21-4"}
+KF_MALFORMED = "KF-C21-5"      # any other javac complaint of a listed program (two triaged programs, see known_findings.json)
+
+
+def kf_of(cat):
+    return KF_OF.get(cat, KF_MALFORMED)
+
+
+def generator_digest():
+    """identifies the generated programs: the seed list in known_c21_seeds.json is only meaningful for this generator"""
+    import hashlib
+    import inspect
+    h = hashlib.sha256()
+    for mod in (G, DW):
+        with open(mod.__file__, "rb") as f:
+            h.update(f.read())
+    h.update(inspect.getsource(generate).encode())
+    h.update(repr((BATCH, NCHUNK, [list(_e2e_inputs("thorough", c))[-1] for c in (0, NCHUNK - 1)])).encode())
+    return h.hexdigest()
+
+
 def _known_seeds():
-    import json
-    import os
-    p = os.path.join(os.path.dirname(os.path.dirname(os.path.abspath(__file__))), "known_c21_seeds.json")
-    try:
-        with open(p) as f:
-            return {int(k): set(v) for k, v in json.load(f)["seeds"].items()}
-    except FileNotFoundError:
-        return {}
-
-
-KNOWN_SEEDS = _known_seeds()
+    """{seed: set of categories} of the programs recorded as known findings.  The file is committed, written only by
+    tools/gen_c21_known.py and never by a check; a list made for another generator is a broken checker, not a violation."""
+    with open(KNOWN_FILE) as f:
+        data = json.load(f)
+    if data.get("generator_sha256") != generator_digest():
+        raise RuntimeError("known_c21_seeds.json was made for another program generator (specs/dalvikgen.py, specs/dexwriter.py or "
+                           "contracts/C21.py:generate changed): regenerate it with tools/gen_c21_known.py on the unchanged tree")
+    return {int(k): set(v) for k, v in data["seeds"].items()}
 
 
 def _e2e_inputs(tier, chunk):
@@ -185,7 +216,47 @@ E2E_COVERS = [(DCP, "DvMethod.process"), (DCP, "DvClass.get_source"), (DF, "buil
               (WR, "Writer.visit_switch_node"), (WR, "Writer.visit_assign"), (WR, "Writer.visit_return"), (WR, "Writer.visit_constant")]
 
 
-@unit("C21", covers=E2E_COVERS, params=[{"chunk": c} for c in range(NCHUNK)], level="bounded", samples=2, timeout_ms=300000,
+def evaluate(dexm, anam, decm, base, count):
+    """decompile, compile and run the generated methods base .. base+count-1 -> {seed: outcome}, outcome =
+    {"raise": repr} | {"source", "errors": [(line, message)], "cats": set, "wrong": [(args, want, got)], "calls": n}"""
+    out, sources, calls, expected, seeds = {}, {}, {}, {}, {}
+    for seed in range(base, base + count):
+        cls, d, args = generate(seed)
+        cname = "T%d" % seed
+        cls["name"], cls["source"] = "Lp/%s;" % cname, cname + ".java"
+        try:
+            dx = dexm.DEX(DW.write([cls]))
+            an = anam.Analysis(dx)
+            an.create_xref()
+            src = decm.DecompilerDAD(dx, an).get_source_class(dx.get_classes()[0])
+        except (RecursionError, Exception) as e:  # the exception is an observable outcome
+            out[seed] = {"raise": repr(e)[:300]}
+            continue
+        sources[cname], seeds[cname], calls[cname] = src, seed, []
+        out[seed] = {"source": src, "errors": [], "cats": set(), "wrong": [], "calls": 0}
+        for n, a in enumerate(args):
+            ref = G.interpret(d["code"], dict(zip(d["params"], a)))
+            if ref[0] == "timeout":
+                continue
+            key = "%s#%d" % (cname, n)
+            calls[cname].append((key, d["name"], a, d["wide"]))
+            expected[key] = (cname, a, "exc" if ref[0] == "exc" else str(ref[1]))
+    errors, results, log = JH.compile_and_run(sources, calls)
+    for cname, es in errors.items():
+        o = out[seeds[cname]]
+        o["errors"] = [list(e) for e in es]
+        o["cats"] = set(JH.category(m) for _, m in es)
+    for key, (cname, a, want) in sorted(expected.items()):
+        if cname in errors:
+            continue
+        o = out[seeds[cname]]
+        o["calls"] += 1
+        if results.get(key) != want:
+            o["wrong"].append((a, want, results.get(key)))
+    return out, log
+
+
+@unit("C21", covers=E2E_COVERS, params=[{"chunk": c} for c in range(NCHUNK)], level="bounded", samples=2, timeout_ms=900000,
       note="generated structured static methods over int / long (constants, 3-register, /2addr, /lit16, /lit8 arithmetic, shifts, neg/not, "
            "int<->long/byte/char/short casts, if / if-else with compound && / || conditions, counted loops, packed and sparse switches), one "
            "method per class, assembled into a DEX file by an independent writer, decompiled by the real DecompilerDAD, compiled with "
@@ -199,44 +270,26 @@ def end_to_end(U, chunk):
     decm = U.mod("androguard/decompiler/decompiler.py")
     g = U.given or {"base": chunk * 100 * BATCH, "count": BATCH}
     U.drawn.update(g)
-    sources, calls, expected, seeds = {}, {}, {}, {}
-    for seed in range(g["base"], g["base"] + g["count"]):
-        cls, d, args = generate(seed)
-        cname = "T%d" % seed
-        cls["name"], cls["source"] = "Lp/%s;" % cname, cname + ".java"
-
-        def decompile():
-            dx = dexm.DEX(DW.write([cls]))
-            an = anam.Analysis(dx)
-            an.create_xref()
-            return decm.DecompilerDAD(dx, an).get_source_class(dx.get_classes()[0])
-        o = U.call(decompile)
-        U.ensures("the decompiler does not raise", o.ok, seed=seed, exc=repr(o.exc)[:300])
-        if not o.ok:
+    known = _known_seeds()
+    out, log = evaluate(dexm, anam, decm, g["base"], g["count"])
+    for seed in sorted(out):
+        o = out[seed]
+        listed = known.get(seed, set())
+        U.ensures("the decompiler does not raise", "raise" not in o, seed=seed, exc=o.get("raise"))
+        if "raise" in o:
             continue
-        sources[cname] = o.value
-        seeds[cname] = seed
-        calls[cname] = []
-        for n, a in enumerate(args):
-            ref = G.interpret(d["code"], dict(zip(d["params"], a)))
-            if ref[0] == "timeout":
-                continue
-            key = "%s#%d" % (cname, n)
-            calls[cname].append((key, d["name"], a, d["wide"]))
-            expected[key] = (cname, a, "exc" if ref[0] == "exc" else str(ref[1]))
-    errors, results, log = JH.compile_and_run(sources, calls)
-    for cname in sorted(sources):
-        seed = seeds[cname]
-        cats = set(JH.category(m) for _, m in errors.get(cname, []))
-        listed = KNOWN_SEEDS.get(seed, set())
+        cats = o["cats"]
+        # a rejected source is a known finding only when this very program is listed with every category javac reports
         U.ensures("the decompiled source is accepted by javac", not cats,
-                  unless=[U.known("KF-C21-1", "symbol" in cats and cats <= listed), U.known("KF-C21-2", "lossy" in cats and cats <= listed)],
-                  seed=seed, errors=[list(e) for e in errors.get(cname, [])][:4], source=sources[cname][:1500])
-    for key, (cname, a, want) in sorted(expected.items()):
-        if cname in errors:
+                  unless=[U.known(kf, cats <= listed and any(kf_of(c) == kf for c in cats))
+                          for kf in ("KF-C21-1", "KF-C21-2", "KF-C21-3", KF_MALFORMED)],
+                  seed=seed, errors=o["errors"][:4], source=o["source"][:1500])
+        if cats:
             continue
         U.ensures("the compiled decompiler output returns the value (or throws the ArithmeticException) the bytecode does",
-                  results.get(key) == want, seed=seeds[cname], args=a, want=want, got=results.get(key), source=sources[cname][:1500], log=log[:200])
+                  not o["wrong"], unless=[U.known(KF_OF["value"], "value" in listed)],
+                  seed=seed, wrong=[list(w) for w in o["wrong"][:3]], calls=o["calls"], source=o["source"][:1500], log=log[:200])
 
 
 end_to_end.enumerate_inputs = _e2e_inputs
+end_to_end.conc_timeout = 600     # one batch = 50 decompilations + javac + java; a looping decompiled method costs 40 s + 15 s
